@@ -175,10 +175,10 @@ def spawn_worker(job: dict, hashseed: int) -> subprocess.Popen:
     env['VERIF_REPO'] = REPO_DIR
     env['PYTHONDONTWRITEBYTECODE'] = '1'
     # output goes to unlinked temp files: a full pipe must never stall a worker
-    fout = tempfile.TemporaryFile(mode='w+', dir=scratch_root())
-    ferr = tempfile.TemporaryFile(mode='w+', dir=scratch_root())
-    p = subprocess.Popen([PY, CHECK, '_worker'], stdin=subprocess.PIPE, stdout=fout, stderr=ferr, env=env, text=True)
-    p.stdin.write(json.dumps(job))
+    fout = tempfile.TemporaryFile(mode='w+b', dir=scratch_root())
+    ferr = tempfile.TemporaryFile(mode='w+b', dir=scratch_root())
+    p = subprocess.Popen([PY, CHECK, '_worker'], stdin=subprocess.PIPE, stdout=fout, stderr=ferr, env=env)
+    p.stdin.write(json.dumps(job).encode())
     p.stdin.close()
     p.stdin = None
     p._simlab_files = (fout, ferr)
@@ -188,11 +188,11 @@ def spawn_worker(job: dict, hashseed: int) -> subprocess.Popen:
 def _read_back(p):
     fout, ferr = p._simlab_files
     fout.seek(0)
-    out = fout.read()
+    out = fout.read().decode('utf-8', errors='replace')
     ferr.seek(0, os.SEEK_END)
     size = ferr.tell()
     ferr.seek(max(0, size - 4000))
-    err = ferr.read()
+    err = ferr.read().decode('utf-8', errors='replace')      # (the tail may start inside a multi-byte character)
     fout.close()
     ferr.close()
     return out, err
